@@ -13,6 +13,7 @@ read-buffer sizes.  Record protection itself is a parameter (`dec`), see C04.
 -/
 import Gotlcp.Lemmas.C06Tx
 import Gotlcp.Lemmas.C06Rx
+import Gotlcp.Lemmas.C06Compose
 import Gotlcp.Model.RecordTxFacts
 import Gotlcp.Model.RecordRxFacts
 import Gotlcp.Generated.Facts
@@ -26,6 +27,7 @@ open Gotlcp.Model.RecordTx
 open Gotlcp.Model.RecordRx
 open Gotlcp.Lemmas.C06Tx
 open Gotlcp.Lemmas.C06Rx
+open Gotlcp.Lemmas.C06Compose
 open Gotlcp
 
 /-- the facts of the source the other theorems rely on -/
@@ -288,5 +290,180 @@ example :
   intro dec wire
   refine ⟨⟨[0xaa, 0xbb], [23, 1, 1, 0, 3, 1, 2, 3] ++ [21, 1, 1, 0, 2, 1, 0], by decide, rfl, by decide, by decide,
     ⟨[1, 2, 3], [21, 1, 1, 0, 2, 1, 0], by decide, rfl, by decide, by decide, ⟨[1, 0], [], 1, by decide, rfl⟩⟩⟩, by decide⟩
+
+/-! ### sender and receiver composed -/
+
+/-- Record protection as the stream sees it, for protection mode `k`: `enc seq typ p` is the
+protected fragment `halfConn.encrypt` produces for payload `p` of record type `typ` at write
+sequence number `seq`, `dec seq typ c` what `halfConn.decrypt` answers at read sequence number
+`seq`.  The two laws are hypotheses, not axioms: `roundtrip` is C04's `C04_record_roundtrip`
+(the receiver, expecting the sequence number the sender used, gets the payload back) and `len`
+is the length of `encrypt`'s output (`C06_facts` pins its arithmetic; the correspondence runs
+compare it with the real `encrypt`).  Instances below show they are jointly satisfiable in
+every mode. -/
+structure Codec (k : Kind) where
+  enc : Nat → UInt8 → Bytes → Bytes
+  dec : Dec
+  roundtrip : ∀ seq typ p, dec seq typ (enc seq typ p) = some p
+  len : ∀ seq typ p, (enc seq typ p).length = cipherLen factsTx k p.length
+
+def appByte : UInt8 := UInt8.ofNat Facts.tlcp.recordTypeApplicationData
+def alertByte : UInt8 := UInt8.ofNat Facts.tlcp.recordTypeAlert
+def closeNotifyByte : UInt8 := UInt8.ofNat Facts.tlcp.alertCloseNotify
+def warningByte : UInt8 := UInt8.ofNat Facts.tlcp.alertLevelWarning
+
+/-- the application-data records on the wire: the `i`-th record of the connection is protected
+under sequence number `seq + i` -/
+def wire {k : Kind} (C : Codec k) : Nat → List Bytes → Bytes
+  | _, [] => []
+  | seq, p :: ps => frameBytes factsRx appByte (C.enc seq appByte p) ++ wire C (seq + 1) ps
+
+/-- what follows the data: the close-notify alert `Close`/`CloseWrite` sends (under the next
+sequence number), or nothing when the transport is simply shut -/
+def ending {k : Kind} (C : Codec k) (seq : Nat) (closed : Bool) : Bytes :=
+  if closed then frameBytes factsRx alertByte (C.enc seq alertByte [warningByte, closeNotifyByte]) else []
+
+/-- the exact byte stream an honest sender puts on the transport for the records `recs` -/
+def streamBytes {k : Kind} (C : Codec k) (recs : List Bytes) (closed : Bool) : Bytes :=
+  wire C 0 recs ++ ending C recs.length closed
+
+theorem wire_honest {k : Kind} (C : Codec k) (closed : Bool) : ∀ (recs : List Bytes) (seq : Nat),
+    (∀ p ∈ recs, 0 < p.length ∧ p.length ≤ Facts.tlcp.maxPlaintext) →
+    Honest factsRx C.dec appByte alertByte closeNotifyByte seq
+      (wire C seq recs ++ ending C (seq + recs.length) closed) recs closed := by
+  have hh : factsRx.recordHeaderLen = 5 := by decide
+  have hv : factsRx.version < 65536 := by decide
+  have hm : factsRx.maxCiphertext < 65536 := by decide
+  have hmc : factsRx.maxCiphertext = Facts.tlcp.maxCiphertext := rfl
+  intro recs
+  induction recs with
+  | nil =>
+    intro seq _
+    cases closed with
+    | false => simp [wire, ending, Honest]
+    | true =>
+      simp only [wire, ending, List.nil_append, List.length_nil, Nat.add_zero, ↓reduceIte, Honest]
+      refine ⟨C.enc seq alertByte [warningByte, closeNotifyByte], [], warningByte, ?_, C.roundtrip _ _ _⟩
+      have := parseOne_frame factsRx hh hv hm alertByte (C.enc seq alertByte [warningByte, closeNotifyByte]) []
+        (by rw [C.len, hmc]; exact C06_cipher_le k _ (by decide))
+      simpa using this
+  | cons p ps ih =>
+    intro seq hall
+    obtain ⟨h0, hmax⟩ := hall p List.mem_cons_self
+    simp only [wire, Honest, List.append_assoc]
+    refine ⟨C.enc seq appByte p, wire C (seq + 1) ps ++ ending C (seq + (p :: ps).length) closed, ?_,
+      C.roundtrip _ _ _, h0, hmax, ?_⟩
+    · exact parseOne_frame factsRx hh hv hm appByte _ _ (by rw [C.len, hmc]; exact C06_cipher_le k _ hmax)
+    · have := ih (seq + 1) (fun q hq => hall q (List.mem_cons_of_mem _ hq))
+      have he : seq + 1 + ps.length = seq + (p :: ps).length := by simp only [List.length_cons]; omega
+      rw [he] at this
+      exact this
+
+/-- **Stream identity (sender ∘ transport ∘ receiver).**  For every list of `Write`s (any
+sizes and contents), every sender state, dynamic record sizing on or off, every protection mode
+with any protection satisfying `Codec`, closing after the last write or just shutting the
+transport, every way the transport chunks the exact byte stream, and every sequence of
+non-empty read buffers:
+* every `Write` succeeds and returns its full length;
+* what the peer's `Read`s return, concatenated, is a prefix of the concatenation of the writes
+  — nothing lost, duplicated or reordered — and each `Read` either yields at least one byte
+  or reports end-of-stream, never another error;
+* end-of-stream is reported only after everything written has been handed out;
+* a reader that performs more reads than there are bytes has read exactly what was written.
+Sequence numbers: the sender protects its `i`-th record under sequence number `i`
+(`wire`), the receiver presents sequence number `i` to `dec` for the `i`-th record it
+opens (`readOne`); `Codec.roundtrip` is used at equal numbers only. -/
+theorem C06_stream_identity (dynDisabled : Bool) (k : Kind) (C : Codec k) (s : TxState)
+    (ws : List Bytes) (closed : Bool) (chunks : List Bytes) (bufs : List Nat) :
+    ∃ recs s', writes factsTx dynDisabled k s ws = some (recs, ws.map (·.length), s') ∧
+      (chunks.flatten = streamBytes C recs closed → (∀ n ∈ bufs, 1 ≤ n) →
+        let r := reads factsRx C.dec { io := ⟨[], chunks⟩ } bufs
+        (∃ rest, delivered r.1 ++ rest = ws.flatten) ∧
+        (∀ o ∈ r.1, (o.2 = none ∧ 0 < o.1.length) ∨ o.2 = some .eof) ∧
+        ((∃ o ∈ r.1, o.2 = some .eof) → delivered r.1 = ws.flatten) ∧
+        (ws.flatten.length < bufs.length → delivered r.1 = ws.flatten)) := by
+  obtain ⟨recs, s', hw, hflat, hall⟩ := C06_writes_concat dynDisabled k ws s
+  refine ⟨recs, s', hw, ?_⟩
+  intro hchunks hb r
+  have hta : appByte.toNat = Facts.tlcp.recordTypeApplicationData := by decide
+  have htl : alertByte.toNat = Facts.tlcp.recordTypeAlert := by decide
+  have hcn : closeNotifyByte.toNat = Facts.tlcp.alertCloseNotify := by decide
+  have hh : Honest factsRx C.dec appByte alertByte closeNotifyByte 0 chunks.flatten recs closed := by
+    have := wire_honest C closed recs 0 hall
+    rw [hchunks]
+    simpa [streamBytes] using this
+  obtain ⟨h1, h2⟩ := C06_read_any_buffers C.dec appByte alertByte closeNotifyByte hta htl hcn chunks recs closed hh bufs hb
+  rw [hflat] at h1
+  refine ⟨h1, h2, ?_, ?_⟩
+  · intro heof
+    rw [← hflat]
+    exact C06_close_after_last C.dec appByte alertByte closeNotifyByte hta htl hcn chunks recs closed hh bufs hb heof
+  · intro hlen
+    rw [← hflat] at hlen ⊢
+    exact C06_read_eventually C.dec appByte alertByte closeNotifyByte hta htl hcn chunks recs closed hh bufs hb hlen
+
+/-- the laws of `Codec` are satisfiable in every mode: placeholder protections with exactly the
+lengths of the real ones (these are the ones the oracle runs) -/
+def codecNone : Codec .none where
+  enc := fun _ _ p => p
+  dec := fun _ _ b => some b
+  roundtrip := fun _ _ _ => rfl
+  len := fun _ _ _ => rfl
+
+def codecAead : Codec .aead where
+  enc := fun _ _ p => List.replicate 8 0 ++ p ++ List.replicate 16 0
+  dec := fun _ _ b => some ((b.drop 8).take (b.length - 24))
+  roundtrip := by
+    intro _ _ p
+    have h8 : (List.replicate 8 (0 : UInt8)).length = 8 := by simp
+    simp only [List.append_assoc, List.drop_left' h8, List.length_append, List.length_replicate]
+    have : 8 + (p.length + 16) - 24 = p.length := by omega
+    rw [this, List.take_left' rfl]
+  len := by
+    intro _ _ p
+    have : factsTx.aeadExplicit = 8 ∧ factsTx.aeadOverhead = 16 := by decide
+    simp [cipherLen, this.1, this.2]; omega
+
+def cbcPad (n : Nat) : Nat := 16 - (n + 32) % 16
+
+def codecCbc : Codec .cbc where
+  enc := fun _ _ p => List.replicate 16 0 ++ p ++ List.replicate (32 + cbcPad p.length - 1) 0 ++
+    [UInt8.ofNat (cbcPad p.length - 1)]
+  dec := fun _ _ b => some ((b.drop 16).take (b.length - 48 - ((b.getLast?.getD 0).toNat + 1)))
+  roundtrip := by
+    intro _ _ p
+    have hp : 1 ≤ cbcPad p.length ∧ cbcPad p.length ≤ 16 := by unfold cbcPad; omega
+    have h16 : (List.replicate 16 (0 : UInt8)).length = 16 := by simp
+    have hlast : ((List.replicate 16 (0 : UInt8) ++ p ++ List.replicate (32 + cbcPad p.length - 1) 0 ++
+        [UInt8.ofNat (cbcPad p.length - 1)]).getLast?.getD 0).toNat + 1 = cbcPad p.length := by
+      simp only [List.getLast?_append, List.getLast?_singleton, Option.some_or, Option.getD_some,
+        UInt8.toNat_ofNat']
+      omega
+    rw [hlast]
+    simp only [List.append_assoc, List.drop_left' h16, List.length_append, List.length_replicate,
+      List.length_cons, List.length_nil]
+    have : 16 + (p.length + (32 + cbcPad p.length - 1 + (0 + 1))) - 48 - cbcPad p.length = p.length := by omega
+    rw [this, List.take_left' rfl]
+  len := by
+    intro _ _ p
+    have : factsTx.blockSize = 16 ∧ factsTx.macSize = 32 := by decide
+    have hp : 1 ≤ cbcPad p.length := by unfold cbcPad; omega
+    simp only [cipherLen, this.1, this.2, List.length_append, List.length_replicate, List.length_cons,
+      List.length_nil]
+    unfold cbcPad at hp ⊢
+    omega
+
+/-- non-vacuity of `C06_stream_identity`: three writes (one empty) in GCM mode with dynamic
+sizing, closed, delivered in 3-byte chunks and read with buffers 2,1,5,…: the hypothesis
+holds and the reads return exactly what was written, then end-of-stream -/
+example :
+    let ws : List Bytes := [[1, 2, 3], [], [4, 5]]
+    let recs : List Bytes := [[1, 2, 3], [4, 5]]
+    let w := streamBytes codecAead recs true
+    let chunks : List Bytes := [w.take 3, (w.drop 3).take 3, (w.drop 6).take 30, w.drop 36]
+    (writes factsTx false .aead ⟨0, 0⟩ ws).map (·.1) = some recs ∧
+    chunks.flatten = w ∧
+    (reads factsRx codecAead.dec { io := ⟨[], chunks⟩ } [2, 1, 5, 5]).1
+      = [([1, 2], none), ([3], none), ([4, 5], some .eof), ([], some .eof)] := by decide
 
 end Gotlcp.Props.C06
